@@ -12,12 +12,18 @@ Theorem C03_parse_line_order_independent :
 Proof. exact parse_line_order_indep. Qed.
 Print Assumptions C03_parse_line_order_independent.
 
-(* ... but not every line is unambiguous (known finding C03-ambiguous-line) *)
-Theorem C03_classification_ambiguous_refuted :
-  exists line, claims PComment line /\ claims PInclude line /\
-  parse_line [PComment; PInclude] line <> parse_line [PInclude; PComment] line.
-Proof. exact classify_unique_refuted. Qed.
-Print Assumptions C03_classification_ambiguous_refuted.
+(* every line is claimed by at most one directive pattern (IncludeRegex is anchored since fix: 597d59c;
+   before, a comment mentioning an include was claimed by two) ... *)
+Theorem C03_classification_unambiguous :
+  forall line p q, claims p line -> claims q line -> p = q.
+Proof. exact classify_unique. Qed.
+Print Assumptions C03_classification_unambiguous.
+
+(* ... hence the classification of EVERY line is the same for every iteration order of the pattern map *)
+Theorem C03_parse_line_deterministic :
+  forall o1 o2 line, (forall p, In p o1 <-> In p o2) -> parse_line o1 line = parse_line o2 line.
+Proof. exact parse_line_deterministic. Qed.
+Print Assumptions C03_parse_line_deterministic.
 
 Theorem C03_suffix_pairs_order_independent :
   forall ps ps' e, Permutation ps ps' -> noninterfering ps e -> apply_pairs ps e = apply_pairs ps' e.
